@@ -215,6 +215,59 @@ def run(ctx):
                "down the chain misses (or duplicates) every key stored in the tables it skipped")
     ctx.floor("C18.R7", n7, 6, "chain emplace/find instances")
 
+    # ------------------------------------------------ R8 a table iterator is compared with the end() of the table it came from
+    TBL = re.compile(r"^babylon::ConcurrentFixedSwissTable<.*>$")
+    TBL_IT = re.compile(r"^babylon::ConcurrentFixedSwissTable<.*>::Iterator<.*>$")
+    n8 = 0
+    for fn in fb.find(pred=lambda f: f.has_cfg() and not f.lambda_ and
+                      re.match(r"^babylon::ConcurrentTransientHash(Set|Map)<.*>(::Iterator<.*>)?$", f.record or "")):
+        ig = IG(fn, inline=lambda a, b, c: False)
+        live = ig.live_nodes()
+        for n in ig.ev_nodes():
+            if n.id not in live or n.ev["e"] != "call" or n.ev.get("name") not in ("operator!=", "operator==") or not TBL_IT.match(n.ev.get("rec", "") or ""):
+                continue
+
+            def producers(side):
+                """(kind, receiver path) of every table call whose result can be the value of `side` at this comparison"""
+                out = []
+                if side is None:
+                    return out
+                d = strip_cast(ig.resolve(side, n.frame))
+                os_ = ig.origins_at(d, n) if isinstance(d, dict) and d.get("k") == "l" else [d]
+                for o in os_:
+                    ev_ = None
+                    for sd in walk(strip_cast(o)):
+                        if isinstance(sd, dict) and sd.get("k") == "e":
+                            ev_ = ig.ev_of(sd)
+                            break
+                    # through copy constructions of the iterator
+                    hops = 0
+                    while ev_ is not None and ev_.ev["e"] == "ctor" and ev_.ev.get("args") and hops < 4:
+                        hops += 1
+                        nxt = None
+                        for o2 in ig.origins_at(strip_cast(ig.resolve(ev_.ev["args"][0], ev_.frame)), ev_):
+                            for sd in walk(strip_cast(o2)):
+                                if isinstance(sd, dict) and sd.get("k") == "e":
+                                    nxt = ig.ev_of(sd)
+                                    break
+                        ev_ = nxt
+                    if ev_ is None or ev_.ev["e"] != "call" or not TBL.match(ev_.ev.get("rec", "") or ""):
+                        out.append((None, None))
+                        continue
+                    out.append(("end" if ev_.ev.get("name") in ("end", "cend") else "pos", pstr(strip_cast(ig.resolve(ev_.ev.get("this"), ev_.frame)))))
+                return out
+            a, b = producers(n.ev.get("this")), producers((n.ev.get("args") or [None])[0])
+            ends = [x for x in a + b if x[0] == "end"]
+            poss = [x for x in a + b if x[0] == "pos"]
+            if not ends or not poss or any(x[0] is None for x in a + b):
+                continue        # not a <position> vs <end of a table> test the rule can attribute
+            n8 += 1
+            ctx.ob("C18.R8", "%s@%s" % (L.short(fn)[:90], n.line), all(e_[1] == p_[1] for e_ in ends for p_ in poss), n.where,
+                   "a table iterator obtained from %s is compared with the end() of %s: table iterators compare by index only, so the "
+                   "end of a table with a different bucket count cuts the walk short or runs past the last slot" % (
+                       sorted(set(p_[1] for p_ in poss)), sorted(set(e_[1] for e_ in ends))), site="%s@end-of-same-table" % fn.name)
+    ctx.floor("C18.R8", n8, 8, "position-vs-end comparisons of table iterators")
+
     # ------------------------------------------------ R6 lookups walk the groups in the order insertion does
     # (the clause is C03.R7; a sequential history breaks on it just as a concurrent one does - seed C18-2 - so it is armed here too)
     class _Sub:
